@@ -25,3 +25,13 @@ PROPS["C13"] = dict(
     assumptions=["ARVI and SAVI follow the library's own documented/tested formulas (ARVI '+blue', SAVI divided by (1+L)), recorded as observations"],
     trusted_base=[],
 )
+
+PROPS["C12"] = dict(
+    level="proof",
+    technique="contract-based deductive verification: binary-search loop invariant + first-bin postcondition on the real _cpu_bin, per-cell postcondition on _cpu_binary (pyvc VCs -> z3)",
+    not_decided=["Jenks optimality (bounded)", "exact float behaviour of np.percentile interpolation"],
+    assumptions=[],
+    trusted_base=[],
+    bounded=[("c12_classifiers", {"quick": 25, "thorough": 240}), ("c12_natural_breaks", {"quick": 25, "thorough": 200, "jit": True}),
+             ("c12_natural_breaks_near_duplicates", {"quick": 15, "thorough": 60, "jit": True})],
+)
